@@ -24,10 +24,20 @@ def main():
         ck.leanchecker(['BctVerif.Props.C12', 'BctVerif.Model.Dist'])
     rp = json.load(open(ck.replay)) if ck.replay else None
     if rp is not None and isinstance(rp.get('case'), dict) and 'case' in rp['case']:
-        cases = [rp['case']['case']]
+        c0 = rp['case']['case']
+        # a failure may depend on what the worker process ran before (hidden state): replay the case as a two-step sequence
+        # (itself, then itself again) unless it already is a sequence / probe
+        cases = [c0 if c0.get('kind') in ('seq', 'probe', 'nav', 'big', 'bad') else
+                 {'kind': 'seq', 'A': c0['A'], 'steps': [c0, c0], 'gen': 'replay', **({'only': c0['only']} if c0.get('only') else {})}]
     else:      # no replay, or a `no-failing-input-found` replay: run the whole tier
-        cases = [dict(c, only='floyd') for c in dc.gen_dist_cases(ck.rs, ck.tier) if c['kind'] in ('bin', 'wei', 'log', 'flt')]
+        cases = [dict(c, only='floyd') for c in dc.gen_dist_cases(ck.rs, ck.tier) if c['kind'] in ('bin', 'wei', 'log', 'flt', 'seq')]
         cases += dc.gen_nav_cases(ck.rs, ck.tier)
+        npr = 500 if ck.tier == 'thorough' else 50
+        pr = ['retrieve', 'navigation_wu', 'floyd_none', 'floyd_inv', 'floyd_log', 'edit_floyd', 'pair_wei_floyd']
+        cases += [dc.gen_probe(ck.rs, pr[k % len(pr)]) for k in range(npr)]
+    if rp is None:
+        # interleave: workers must not see the cases grouped by routine / family / size (hidden state carried between calls)
+        order = ck.rs.permutation(len(cases)); cases = [cases[i] for i in order]
     results = pmap(dc.run_case, cases)
     dc.absorb(ck, cases, results, FUNCS)
     dc.timeout_rates(ck)
